@@ -97,9 +97,9 @@ Proof. vm_compute. repeat split; reflexivity. Qed.
 
 (* (c), (e): state that get_metrics does not show.  Browse; a PTR whose SRV never comes, and a
    PTR of a type nobody browses (refused, but its map key is created); stop.  The instance
-   waits in pending_resolves while its three follow-up queries run (they run although the
-   browse was stopped) and leaves it when they are over (repair e9e74a6); the foreign type
-   keeps an (empty) bucket in the PTR map for ever *)
+   waits in pending_resolves until its first follow-up comes due; as stop_browse removed the
+   PTR, the series ends there and the instance leaves pending_resolves (repairs e9e74a6,
+   48ec5c0); the foreign type keeps an (empty) bucket in the PTR map for ever *)
 Definition w_hidden : list biter :=
   [ mkBI 1000000 [BSetIpInterval 0; BBrowse [95; 104; 116; 116; 112; 46; 95; 116; 99; 112; 46; 108; 111; 99; 97; 108; 46]] [];
     mkBI 1000010 [] [mkBM 2 [mkBR true 12 [95; 104; 116; 116; 112; 46; 95; 116; 99; 112; 46; 108; 111; 99; 97; 108; 46] 1 false 10 [97; 108; 112; 104; 97; 46; 95; 104; 116; 116; 112; 46; 95; 116; 99; 112; 46; 108; 111; 99; 97; 108; 46] [97; 108; 112; 104; 97; 46; 95; 104; 116; 116; 112; 46; 95; 116; 99; 112; 46; 108; 111; 99; 97; 108; 46]]; mkBM 2 [mkBR true 12 [95; 102; 111; 114; 101; 105; 103; 110; 46; 95; 116; 99; 112; 46; 108; 111; 99; 97; 108; 46] 1 false 10 [102; 49; 46; 95; 102; 111; 114; 101; 105; 103; 110; 46; 95; 116; 99; 112; 46; 108; 111; 99; 97; 108; 46] [102; 49; 46; 95; 102; 111; 114; 101; 105; 103; 110; 46; 95; 116; 99; 112; 46; 108; 111; 99; 97; 108; 46]]];
